@@ -21,8 +21,8 @@ From Mv Require Import Common.Bytes Model.AtomicWrite.
 Definition acase :=
   (string * string * nat * list N * dir * list event * nat * dir * list string)%type.
 
-(* case files open N_scope (byte values); every nat of a case is an argument
-   of one of the functions below, whose parameter types select nat_scope *)
+(* byte lists are printed by the Go harness with the scope key %N; everything
+   else in a case is a nat or a string *)
 Definition AC (pfx target : string) (perm : nat) (data : list N) (before : dir)
            (tr : list event) (code : nat) (after : dir) (scanned : list string) : acase :=
   (pfx, target, perm, data, before, tr, code, after, scanned).
